@@ -175,6 +175,12 @@ def _shapes(maxfrag, maxlen, maxmsg):
     return out
 
 
+def a_threads(t):
+    """two receivers in recv(): a fragmented message is delivered intact to one of them (C12's interleaving query, shared)"""
+    from .c12 import w_order_recv
+    return w_order_recv(t)
+
+
 def obligations(tier):
     thorough = tier == "thorough"
     scen = []
@@ -216,6 +222,9 @@ def obligations(tier):
                           (4 if thorough else 3, 3 if thorough else 2),
                    must_cover=["message-delivered", "fragments-delivered", "payload-exc", "end"], budget_s=2400 if thorough else 900,
                    kernel=["continuous_frame.validate", "add", "is_fire", "extract", "WebSocket.recv_data_frame", "recv_data", "recv"]),
+        Obligation("A-threads", a_threads, [dict(t=2)], bounds="2 receiver threads, a 2-fragment message each; ALL interleavings of read-lock, frame-lock, "
+                   "transport-read and reassembler events (C12's query)", must_cover=["order-recv"], solver_timeout_ms=120000,
+                   kernel=["WebSocket.recv (read lock)", "frame_buffer.recv_frame (frame lock)"]),
         Obligation("A-step", a_step, step,
                    bounds="ONE step from an arbitrary valid reassembler state (idle / in message with accumulated 0,1,3 symbolic bytes, first "
                           "opcode symbolic) on an arbitrary data frame (opcode, FIN symbolic, payload 0..2 bytes): inductive, any number of fragments",
